@@ -340,6 +340,21 @@ class NPShim:
             return _elementwise(s_max, a, b)
         return np.maximum(a, b)
 
+    def isclose(self, a, b, rtol=1e-05, atol=1e-08, equal_nan=False):
+        # numpy's definition: |a - b| <= atol + rtol * |b|
+        if has_sym(a) or has_sym(b):
+            from .core import RV
+
+            def one(x, y):
+                return abs(x - y) <= SymReal(RV(atol)) + SymReal(RV(rtol)) * abs(y)
+            return _elementwise(one, a, b)
+        return np.isclose(a, b, rtol=rtol, atol=atol, equal_nan=equal_nan)
+
+    def allclose(self, a, b, rtol=1e-05, atol=1e-08, equal_nan=False):
+        if has_sym(a) or has_sym(b):
+            return self.all(self.isclose(a, b, rtol=rtol, atol=atol))
+        return np.allclose(a, b, rtol=rtol, atol=atol, equal_nan=equal_nan)
+
     def clip(self, a, lo, hi, **k):
         if has_sym(a) or has_sym(lo) or has_sym(hi):
             return _elementwise(lambda x, l, h: s_min(s_max(x, l), h), a, lo, hi)
@@ -486,6 +501,18 @@ class NPShim:
 
     amin = min
     amax = max
+
+    def ptp(self, a, axis=None, **k):
+        if has_sym(a) and not k:
+            a_ = np.asarray(a, dtype=object)
+            if axis is None:
+                return self.max(a_) - self.min(a_)
+            if a_.ndim == 2 and axis in (0, 1):
+                lanes = a_.T if axis == 0 else a_
+                out = np.empty(len(lanes), dtype=object)
+                out[:] = [self.max(l_) - self.min(l_) for l_ in lanes]
+                return out
+        return np.ptp(a, axis=axis, **k)
 
     def argmax(self, a, *args, **k):
         if has_sym(a):
